@@ -52,6 +52,7 @@ class CohGen:
             global_serialize=False,                     # D20
             ns_var_default=False,                       # D7 (pybind)
             nonconst_print=False,                       # D36 (pybind)
+            tparam_in_vector=True,      # std::vector<T> with T a class template parameter (pybind universe)
             templated_class_enum_use=(target == 'pybind'),
             unsigned_char_params=(target == 'pybind'),  # D41 (matlab): guard isa(x,'unsigned char') can never hold
             class_enum_default=(target == 'matlab'),    # D40 (pybind): default value of the class's own enum type
@@ -219,6 +220,8 @@ class CohGen:
         if t.args:
             if t.name == 'vector':
                 inner = t.args[0].name
+                if inner not in ('int', 'double', 'string'):
+                    return None
                 return {'int': 'std::vector<int>{1, 2, 3}', 'double': 'std::vector<double>{0.5, 1.5}',
                         'string': 'std::vector<string>{"a", "b"}'}[inner]
             return None
@@ -257,6 +260,11 @@ class CohGen:
             t = self.arg_type()
             if tparams and not t.args and not t.ns and t.name in SCALARS and r.random() < 0.5:
                 t = S.T(r.choice(tparams), (), (), t.const, t.marker)
+                if self.f['stl_vector'] and self.f['tparam_in_vector'] and r.random() < 0.35:
+                    # the parameter nested one level inside a template argument
+                    t = S.T('vector', ('std',), (S.T(t.name),), r.random() < 0.5, r.choice(['', '&']))
+                    if t.marker == '&':
+                        t = S.T(t.name, t.ns, t.args, True, '&')
             out.append([t, self.lname(), None])
         # defaults form a suffix of the parameter list
         if self.f['defaults'] and out and r.random() < 0.5:
